@@ -200,6 +200,20 @@ class Escape:
                 cur.add(q)
         st[obj] = frozenset(cur & self.bits)
 
+    def _exempt(self, fn, callee):
+        """reviewed exemption of a generator call site; an entry may be restricted to one overload by the type of the
+        caller's first parameter (Impl(Shape) versus the MeshGL import constructors share a name)"""
+        ex = self.exempt_gen.get((T.basename(fn['name'].split('::<lambda')[0]), callee))
+        if ex and ex.get('first_param_type'):
+            root = fn
+            if '::<lambda' in fn['key']:
+                root = self.db.functions.get(fn['key'].split('::<lambda')[0], fn)
+            ps = root.get('params') or []
+            t = self.db.T(root, ps[0]['t']) if ps else {}
+            if ex['first_param_type'] not in (t.get('c') or t.get('s') or ''):
+                return None
+        return ex
+
     def effect_of_call(self, fn, ev):
         """(object key, effect dict, label) for a call event that acts on an Impl object"""
         out = []
@@ -212,7 +226,7 @@ class Escape:
                 return out
             if name in self.prim:
                 eff = dict(self.prim[name])
-                ex = self.exempt_gen.get((T.basename(fn['name'].split('::<lambda')[0]), name))
+                ex = self._exempt(fn, name)
                 if ex:
                     eff['gen'] = [b for b in eff.get('gen', []) if b not in ex['bits']]
                 # halfedges paired from caller-supplied triangles must pass the IsManifold gate
@@ -228,7 +242,7 @@ class Escape:
                 out.append((obj, eff, T.short(name)))
             elif ev.get('fk') in self.summ:
                 g, k, r = self.summ[ev['fk']]
-                ex = self.exempt_gen.get((T.basename(fn['name'].split('::<lambda')[0]), name))
+                ex = self._exempt(fn, name)
                 if ex:
                     g = [b for b in g if b not in ex['bits']]
                 eff = {'gen': sorted(g), 'kill': sorted(k), 'require_not': sorted(r)}
